@@ -196,6 +196,18 @@ func (o *OracleC11) AfterBlock(c *Chain, b *BlockCtx) []*Violation {
 			executedNow = true
 		}
 	}
+	// several disputes funded in one block take stake from the same backers: the per-dispute loss is then not
+	// observable at block granularity (the per-backer record check still applies)
+	fundedNow := 0
+	for id := range o.t.cur {
+		if o.t.fundedAt[id] == b.H {
+			fundedNow++
+		}
+	}
+	if fundedNow > 1 {
+		busy["*frombond*"] = true
+		o.count("blocks_with_several_fundings(loss check skipped)")
+	}
 
 	for id, d := range o.t.cur {
 		p, had := o.t.prev[id]
